@@ -122,7 +122,18 @@ Definition check_decode (tbl : mactable) (s : secret) (name x : bytes) (maxage n
                 | SStr k, SStr k0, [p0; p1; sg], [q0; q1; sg0] =>
                     bytes_eqb k k0 && bytes_eqb sg sg0 && (minv <=? 1)
                     && bytes_eqb (name ++ p0 ++ p1) (name0 ++ q0 ++ q1)
-                    && (negb (bytes_eqb x y && bytes_eqb name name0) || bytes_eqb v v0)
+                    (* the accepted timestamp field is canonical decimal, inside the window *)
+                    && is_digits p1 && negb (starts_with_zero p1)
+                    && match py_int p1 with
+                       | Some t =>
+                           (now - maxage <=? t) && (t <=? now + 31 * 86400)
+                           (* same name: the issued string itself (original value), or a digit
+                              shift that changes the timestamp by more than a factor of two;
+                              another name: format 1 cross-name re-split (documented weakness) *)
+                           && (negb (bytes_eqb name name0)
+                               || (bytes_eqb p0 q0 && bytes_eqb v v0) || (2 * t0 <? t) || (2 * t <? t0))
+                       | None => false
+                       end
                 | _, _, _, _ => false
                 end
           end
